@@ -11,6 +11,9 @@ VERIF = os.path.dirname(os.path.dirname(os.path.abspath(__file__)))
 REPO = os.environ.get("VERIF_REPO", "/repo")
 SPEC = os.path.join(VERIF, "spec")
 GUARD = "ETHEREUM_PY_TRIE_VERIF"
+# where evidence/ and replays/ are written (redirected by the self-test so that runs
+# against mutated copies of the repository do not overwrite the real evidence)
+OUT = os.environ.get("VERIF_OUT") or VERIF
 
 
 def import_repo():
@@ -91,7 +94,7 @@ class Report:
         from . import findings
 
         wall = round(time.time() - self.t0, 2)
-        rdir = os.path.join(VERIF, "replays", self.prop)
+        rdir = os.path.join(OUT, "replays", self.prop)
         os.makedirs(rdir, exist_ok=True)
         for f in os.listdir(rdir):
             if f.startswith("last-"):
@@ -130,7 +133,7 @@ class Report:
         c["traces_validated_against_impl"] = c.get("behaviours_replayed", 0) + \
             c.get("recorded_traces_validated", 0)
         c.setdefault("evaluations", c.get("behaviours_replayed", 0) + c.get("trace_steps_validated", 0)
-                     + c.get("table_rows_checked", 0))
+                     + c.get("table_rows_checked", 0) + c.get("real_calls_in_state_tables", 0))
         c.setdefault("distinct_nontrivial", c.get("distinct_final_states_replayed", 0)
                      + c.get("distinct_trace_states", 0) + c.get("distinct_rows", 0))
         c.setdefault("rule", "spec->code: one behaviour per transition TLC generated in the bounded model, "
@@ -149,8 +152,8 @@ class Report:
         }
         if self.known:
             ev["known_findings"] = [k for k, _ in self.known]
-        os.makedirs(os.path.join(VERIF, "evidence"), exist_ok=True)
-        with open(os.path.join(VERIF, "evidence", f"{self.prop}.json"), "w") as fh:
+        os.makedirs(os.path.join(OUT, "evidence"), exist_ok=True)
+        with open(os.path.join(OUT, "evidence", f"{self.prop}.json"), "w") as fh:
             json.dump(ev, fh, indent=1, default=hexs)
         if self.vacuity and status == 0:
             for v in self.vacuity:
